@@ -221,10 +221,13 @@ def check_algebra(case, stats: Stats) -> None:
     collide = False
     for x, px, sx in zip(objs, pairs, specs):
         for y, py, sy in zip(objs, pairs, specs):
-            eq = x == y
+            try:
+                eq, ne, lt = x == y, x != y, x < y
+            except TypeError as e:
+                raise Violation(f"comparing {x!r} with {y!r} raised TypeError: {e}") from e
             if eq != (px == py):
                 raise Violation(f"{x!r} == {y!r} is {eq}, pairs are {px!r} / {py!r}")
-            if (x != y) == eq:
+            if ne == eq:
                 raise Violation(f"!= is not the negation of == for {x!r}, {y!r}")
             if px == py:
                 if hash(x) != hash(y):
@@ -233,7 +236,6 @@ def check_algebra(case, stats: Stats) -> None:
                     raise Violation(f"set/dict membership is not class- and name-blind for {x!r} / {y!r}")
                 if sx is not sy and (sx["cls"] != sy["cls"] or sx["name"] != sy["name"]):
                     collide = True
-            lt = x < y
             if lt != (px < py):
                 raise Violation(f"{x!r} < {y!r} is {lt}, lexicographic order on the pairs says {px < py}")
         if hash(x) != hash(px) and False:
@@ -241,7 +243,14 @@ def check_algebra(case, stats: Stats) -> None:
         t = curies.ReferenceTuple(*px)
         if t != px or hash(t) != hash(px) or (t < ("b", "")) != (px < ("b", "")):
             raise Violation("ReferenceTuple does not compare/hash as the plain tuple")
-    got = [(str(o.prefix), o.identifier) for o in sorted(objs)]
+    try:
+        ordered = sorted(objs)
+        lo, hi = min(objs), max(objs)
+    except TypeError as e:
+        raise Violation(f"sorting / min / max over references of mixed classes raised TypeError: {e}") from e
+    if (str(lo.prefix), lo.identifier) != min(pairs) or (str(hi.prefix), hi.identifier) != max(pairs):
+        raise Violation(f"min / max of the references are {lo!r} / {hi!r}, of the pairs {min(pairs)!r} / {max(pairs)!r}")
+    got = [(str(o.prefix), o.identifier) for o in ordered]
     if got != sorted(pairs):
         raise Violation(f"sorted(references) gives pairs {got!r}, sorting the tuples gives {sorted(pairs)!r}")
     if len({*objs}) != len(set(pairs)):
